@@ -115,6 +115,11 @@ def hs(h):
     return '(%d,%d,%d)' % (int(h[0]), int(h[1]), int(h[2]))
 
 
+def cz(z):
+    z = complex(z)
+    return '(%r%sj)' % (z.real, ('%+r' % z.imag))
+
+
 def rel_err(x, ref):
     with np.errstate(divide='ignore', invalid='ignore'):
         return np.abs(x - ref) / np.abs(ref)
@@ -233,6 +238,8 @@ def judge_q(ck, st, cr, K, H, E, rel, th, therr, Q, Qerr):
     def wit(k):
         return dict(cr.witness(), call='Q_scattering_amplitude(%s, %r, %d,%d,%d, %r)' % (cr.label, float(E[k]), H[k][0], H[k][1], H[k][2], float(rel[k])),
                     bragg_angle='error' if therr[k] else float(th[k]), returned='error' if Qerr[k] else float(Q[k]))
+    for k in np.nonzero(~Qerr & ~np.isfinite(Q))[0][:2]:
+        ck.violation('c13:Q_scattering_amplitude:non-finite', 'Q_scattering_amplitude returned %r without an error' % float(Q[k]), wit(k))
     m = nz & ~therr & np.isfinite(th)
     for k in np.nonzero(m & Qerr)[0][:2]:
         ck.violation('c13:Q_scattering_amplitude:error-with-reflection', 'Q_scattering_amplitude failed although Bragg_angle = %r' % float(th[k]), wit(k))
@@ -321,10 +328,10 @@ def judge_sf(ck, st, cr, H, E, D, rel, Qok, afok, af, F, Ferr, Fm, Fmerr, Ff, Ff
     # ---- nothing may ever be non-finite --------------------------------------------------------------------
     nf = ~Ferr & ~(np.isfinite(F.real) & np.isfinite(F.imag))
     for i, k in np.argwhere(nf)[:2]:
-        ck.violation('c13:F_H:non-finite:%s' % ('no-reflection' if not Qok[i] else 'reflection'), 'structure factor is %r without an error' % (F[i, k],), wit(i, k))
+        ck.violation('c13:F_H:non-finite:%s' % ('no-reflection' if not Qok[i] else 'reflection'), 'structure factor is %s without an error' % cz(F[i, k]), wit(i, k))
     nf2 = ~Fferr & ~(np.isfinite(Ff.real) & np.isfinite(Ff.imag))
     for i in np.nonzero(nf2)[0][:2]:
-        ck.violation('c13:F_H:non-finite:%s' % ('no-reflection' if not Qok[i] else 'reflection'), 'Crystal_F_H_StructureFactor is %r without an error' % (Ff[i],), wit(i))
+        ck.violation('c13:F_H:non-finite:%s' % ('no-reflection' if not Qok[i] else 'reflection'), 'Crystal_F_H_StructureFactor is %s without an error' % cz(Ff[i]), wit(i))
     # ---- no atomic factors (no reflection / q or Z without data): whatever needs f0 must be an error ---------------
     nof = ~full
     need = FLAGS_A[:, 0] == 2
@@ -334,7 +341,7 @@ def judge_sf(ck, st, cr, H, E, D, rel, Qok, afok, af, F, Ferr, Fm, Fmerr, Ff, Ff
                      ('no Bragg reflection exists (Q_scattering_amplitude is an error)' if not Qok[i] else 'Atomic_Factors is an error for an atom of the cell'), wit(i, k))
     for i in np.nonzero(nof & ~Fferr)[0][:2]:
         ck.violation('c13:F_H:value-without-f0:%s' % ('no-reflection' if not Qok[i] else 'no-atomic-factors'),
-                     'Crystal_F_H_StructureFactor returned %r although the atomic factors are unavailable' % (Ff[i],), wit(i))
+                     'Crystal_F_H_StructureFactor returned %s although the atomic factors are unavailable' % cz(Ff[i]), wit(i))
     st['sf_expected_error'] += int((nof[:, None] & need[None, :]).sum() + nof.sum())
     for i in np.nonzero(nof)[0]:
         cl = 'no-reflection' if not Qok[i] else 'no-atomic-factors'
@@ -361,7 +368,7 @@ def judge_sf(ck, st, cr, H, E, D, rel, Qok, afok, af, F, Ferr, Fm, Fmerr, Ff, Ff
     for ii, k in np.argwhere(bad)[:3]:
         i = idx[ii]
         ck.violation('c13:F_H:explicit-sum:flags-%d%d%d:%s' % (FLAGS[k] + (kind,)),
-                     'F_H = %r, explicit sum over atoms = %r (|diff| %.3g, scale %.3g)' % (F[i, k], ref[ii, k], dv[ii, k], scale[ii]),
+                     'F_H = %s, explicit sum over atoms = %s (|diff| %.3g, scale %.3g)' % (cz(F[i, k]), cz(ref[ii, k]), dv[ii, k], scale[ii]),
                      wit(i, k, dict(expected=[ref[ii, k].real, ref[ii, k].imag], atomic_factors={int(z): af[i, j].tolist() for j, z in enumerate(cr.Zs)})))
     # full function = all three terms
     ffe = Fferr[idx]
@@ -371,7 +378,7 @@ def judge_sf(ck, st, cr, H, E, D, rel, Qok, afok, af, F, Ferr, Fm, Fmerr, Ff, Ff
     st['sf_compared'] += int((~ffe).sum())
     for ii in np.nonzero(~ffe & ~(dvf <= tol))[0][:2]:
         i = idx[ii]
-        ck.violation('c13:F_H:full-function-vs-sum:%s' % kind, 'Crystal_F_H_StructureFactor = %r, explicit sum = %r' % (Ff[i], ref[ii, K222]),
+        ck.violation('c13:F_H:full-function-vs-sum:%s' % kind, 'Crystal_F_H_StructureFactor = %s, explicit sum = %s' % (cz(Ff[i]), cz(ref[ii, K222])),
                      wit(i, None, dict(expected=[ref[ii, K222].real, ref[ii, K222].imag])))
     # additivity over the three flags: F(a,b,c) = F(a,0,0) + F(0,b,0) + F(0,0,c)
     allok = ~Fe.any(axis=1)
@@ -382,12 +389,12 @@ def judge_sf(ck, st, cr, H, E, D, rel, Qok, afok, af, F, Ferr, Fm, Fmerr, Ff, Ff
         dva = np.where(allok, np.abs(Fi_[:, k] - s), 0.0)
         worst_add = max(worst_add, float((dva / scale).max()))
         for ii in np.nonzero(dva > tol)[0][:1]:
-            ck.violation('c13:F_H:additivity:flags-%d%d%d' % (a, b, g), 'F(%d,%d,%d) = %r but F(%d,0,0)+F(0,%d,0)+F(0,0,%d) = %r' % (a, b, g, Fi_[ii, k], a, b, g, s[ii]), wit(idx[ii], k))
+            ck.violation('c13:F_H:additivity:flags-%d%d%d' % (a, b, g), 'F(%d,%d,%d) = %s but F(%d,0,0)+F(0,%d,0)+F(0,0,%d) = %s' % (a, b, g, cz(Fi_[ii, k]), a, b, g, cz(s[ii])), wit(idx[ii], k))
     st['sf_additivity'] += int(allok.sum()) * len(FLAGS)
     st['worst']['sf_additivity_of_scale'] = max(st['worst']['sf_additivity_of_scale'], worst_add)
     z = single(0, 0, 0)
     for ii in np.nonzero(allok & (np.abs(z) > 0))[0][:1]:
-        ck.violation('c13:F_H:all-terms-off-nonzero', 'F with all three terms switched off = %r' % (z[ii],), wit(idx[ii], FLAGS.index((0, 0, 0))))
+        ck.violation('c13:F_H:all-terms-off-nonzero', 'F with all three terms switched off = %s' % cz(z[ii]), wit(idx[ii], FLAGS.index((0, 0, 0))))
     # Friedel's law with f'' off: F(-h) = conj F(h)
     fr = nz[idx]
     Fmi, Fme = Fm[idx], Fmerr[idx]
@@ -399,7 +406,7 @@ def judge_sf(ck, st, cr, H, E, D, rel, Qok, afok, af, F, Ferr, Fm, Fmerr, Ff, Ff
     st['worst']['sf_friedel_of_scale'] = max(st['worst']['sf_friedel_of_scale'], float((dvm / scale[:, None]).max()))
     for ii, kk in np.argwhere(dvm > tol[:, None])[:2]:
         k = NOFPP[kk]
-        ck.violation('c13:F_H:friedel:flags-%d%d%d' % FLAGS[k], "F(-h) = %r but conj F(h) = %r with f'' off" % (Fmi[ii, kk], np.conj(Fi_[ii, k])), wit(idx[ii], k))
+        ck.violation('c13:F_H:friedel:flags-%d%d%d' % FLAGS[k], "F(-h) = %s but conj F(h) = %s with f'' off" % (cz(Fmi[ii, kk]), cz(np.conj(Fi_[ii, k]))), wit(idx[ii], k))
     # forward direction, f0 only: sum(occ*Z)*D
     fw = ~nz[idx] & ~Fe[:, K200]
     if fw.any():
@@ -407,7 +414,7 @@ def judge_sf(ck, st, cr, H, E, D, rel, Qok, afok, af, F, Ferr, Fm, Fmerr, Ff, Ff
         dv0 = np.where(fw, np.abs(Fi_[:, K200] - exp), 0.0)
         st['sf_forward'] += int(fw.sum())
         for ii in np.nonzero(dv0 > tol)[0][:2]:
-            ck.violation('c13:F_H:(000)-f0-only', 'F(0,0,0) with f0 only = %r, sum(occ*Z)*D = %r' % (Fi_[ii, K200], exp[ii]), wit(idx[ii], K200, dict(expected=[float(exp[ii]), 0.0])))
+            ck.violation('c13:F_H:(000)-f0-only', 'F(0,0,0) with f0 only = %s, sum(occ*Z)*D = %r' % (cz(Fi_[ii, K200]), float(exp[ii])), wit(idx[ii], K200, dict(expected=[float(exp[ii]), 0.0])))
 
 
 # ------------------------------------------------------------------------------------------------------------
